@@ -38,7 +38,11 @@ RULE = ("case: k in {2,3} classes labelled 0..k-1 with 15..40 samples each (Gaus
         "(copy), the DataSet passed to / returned by the previous call, and mutate the returned object (revert_scaling, "
         "scale_factor(scalar/vector, no override), scale_range((0,1), no override), shift_value, shuffle, remove_samples, in-place "
         "numpy writes); the range/scale-factor getters are only read; the first operation's data is evaluated again at the end "
-        "(always when an observer ran). "
+        "(always when an observer ran). In the dw sub about a third of the cases insert 1..2 "
+        "continue_dimension_wise_refinement(tolerance=0, max_evaluations=factor*points, factor 1.02/1.1/1.3) operations, each "
+        "between two evaluate/test operations, and about one case in nine (plus two fixed cases that every quick run executes) "
+        "learns from a fine initial scheme (lmin,lmax)=(2,6) or (1,7), max_evaluations=1, so that the component grids have "
+        ">= 200 points and the library's point-by-point interpolation branch is used. "
         "All oracle clauses are evaluated after learning and after every operation. Non-trivial = some operation with >=1 "
         "removed and >=1 kept sample is executed after an earlier successful test_data call. Distinct = distinct case dict.")
 
@@ -54,9 +58,16 @@ ASSUMPTIONS = [
     "coordinate < 0.0049 - 1e-9 or > 0.9951 + 1e-9 has to be removed; samples inside the library's 1e-4 tolerance band "
     "(0.0049..0.005 / 0.995..0.9951, generated for __call__ only) may go either way but must respect order and, if kept, "
     "the arg-max predicate",
-    "densities are obtained from the learned combi objects themselves (their correctness is C02/C16/C17), evaluated by the "
-    "harness at its own scaled points; tolerance 1e-10*(1+max|density|) (harness and library scaling are the same three "
-    "floating point operations; observed difference 0)",
+    "densities are computed by the harness itself from the CURRENT state of the learned objects: reference hat basis (from "
+    "the definition, zero boundary) on every component grid's current 1-D point coordinates (get_point_coord_for_each_dim; "
+    "2^l+1 equidistant points for the standard combination) times the stored surpluses (operation.get_result(), C order), "
+    "combined with the current scheme coefficients; the arg-max predicate uses these reference densities with tolerance "
+    "1e-10*(1+max|density|), and the library's own combi(points) must reproduce them within 1e-9*max(1,|density|) "
+    "(observed < 1e-13). That the surpluses themselves solve the estimation problem is C16/C17",
+    "continue_dimension_wise_refinement changes the classifier, not the scaling or the data: afterwards the stored classes of "
+    "the test set are the library's re-classification with the continued classifier (same length, each a valid arg-max of "
+    "the CURRENT reference densities, evaluate() consistent); prefix stability of the stored classes applies between "
+    "continuations; re-evaluating operation 0's data after a continuation must give valid arg-max classes, not the old ones",
     "returned (scaled) sample coordinates are compared with tolerance 1e-9 absolute (unit-cube coordinates; observed 0); "
     "range / scale-factor getters with 1e-12 relative",
     "'reported' = the notice and, with print_removed=True, one line per removed sample on stdout of a Classification "
@@ -211,6 +222,49 @@ def densities(np, combis, P):
     return np.column_stack(cols)
 
 
+def ref_hat_matrix(np, stripe, xs):
+    """H[m, i] = value at xs[m] of the hat centred at the interior point stripe[i+1] with support [stripe[i], stripe[i+2]]
+    (written from the definition; zero outside the support, zero boundary)."""
+    s = np.asarray(stripe, dtype=float)
+    x = np.asarray(xs, dtype=float)[:, None]
+    lo, p, hi = s[:-2], s[1:-1], s[2:]
+    return np.clip(np.minimum((x - lo[None, :]) / (p - lo)[None, :], (hi[None, :] - x) / (hi - p)[None, :]), 0.0, None)
+
+
+class RefDensity:
+    """The density estimate of one class evaluated INDEPENDENTLY of the library's interpolation code: the combination
+    (current scheme coefficients) of the piecewise d-linear functions given by the CURRENT 1-D point coordinates of every
+    component grid and the CURRENT stored surpluses (nodal hat coefficients, C order, zero boundary).  Everything is read
+    at call time, so a continued refinement is followed."""
+
+    def __init__(self, np, combi, de, mode):
+        self.np, self.combi, self.de, self.mode = np, combi, de, mode
+
+    def stripes(self, lv):
+        np = self.np
+        if self.mode == "std":
+            return [np.linspace(0.0, 1.0, 2 ** int(l) + 1) for l in lv]
+        return [np.asarray(c, dtype=float) for c in self.combi.get_point_coord_for_each_dim(lv)[0]]
+
+    def grid_sizes(self):
+        return [int(self.np.prod([len(c) - 2 for c in self.stripes(tuple(int(x) for x in cg.levelvector))]))
+                for cg in self.combi.scheme]
+
+    def __call__(self, P):
+        np = self.np
+        P = np.asarray(P, dtype=float).reshape(len(P), -1)
+        total = np.zeros(len(P))
+        surpluses = self.de.get_result()
+        letters = "ijkl"[:P.shape[1]]
+        for cg in self.combi.scheme:
+            lv = tuple(int(x) for x in cg.levelvector)
+            st_ = self.stripes(lv)
+            alpha = np.asarray(surpluses[lv], dtype=float).reshape([len(c) - 2 for c in st_])
+            H = [ref_hat_matrix(np, st_[dd], P[:, dd]) for dd in range(P.shape[1])]
+            total += cg.coefficient * np.einsum(",".join("m" + l for l in letters) + "," + letters + "->m", *H, alpha)
+        return total.reshape(-1, 1)
+
+
 def argmax_valid(np, dens_row, cls):
     """the validity predicate: cls is an index whose density is maximal up to tolerance."""
     if cls != int(cls) or not (0 <= int(cls) < len(dens_row)):
@@ -219,11 +273,20 @@ def argmax_valid(np, dens_row, cls):
     return bool(dens_row[int(cls)] >= m - 1e-10 * (1.0 + abs(m)))
 
 
-def check_classes(np, out, sig, combis, P, classes, what):
-    """every class in `classes` must be a valid arg-max of the densities at the rows of P."""
+def check_classes(np, out, sig, combis, P, classes, what, lib=None):
+    """every class in `classes` must be a valid arg-max of the densities `combis` (reference evaluators) at the rows of P; if
+    the library's combi objects are given (lib) their own __call__ must reproduce the reference densities."""
     if len(P) == 0:
         return
     D = densities(np, combis, P)
+    if lib is not None:
+        DL = densities(np, lib, P)
+        err = np.abs(DL - D)
+        if DL.shape != D.shape or not np.all(err <= 1e-9 * np.maximum(1.0, np.abs(D))):
+            i, j = np.unravel_index(int(np.argmax(err)), err.shape)
+            out.bad("%s/density/combi-call-differs-from-reference-hats" % sig.split("/")[0],
+                    "%s: class %d at %s: combi(points) = %.12g, reference hat basis on the current grid points / surpluses / "
+                    "coefficients = %.12g (max over %d samples)" % (what, j, np.asarray(P[i]).tolist(), DL[i, j], D[i, j], len(P)))
     bad = [i for i in range(len(P)) if not argmax_valid(np, D[i], classes[i])]
     if bad:
         i = bad[0]
@@ -424,7 +487,7 @@ def learn(np, deml, case, X, y, data_range):
                                       one_vs_others=bool(case["ovo"]), print_metrics=False)
         else:
             cl.perform_classification_dimension_wise(masslumping=bool(case["masslumping"]), lambd=float(case["lambd"]),
-                                                     minimum_level=1, maximum_level=case["lmax"],
+                                                     minimum_level=case.get("lmin", 1), maximum_level=case["lmax"],
                                                      max_evaluations=case["max_eval"], one_vs_others=bool(case["ovo"]),
                                                      print_metrics=False)
     return cl, cap.getvalue()
@@ -449,6 +512,7 @@ def run(case):
         out.cls("skip:class-missing-in-learning")
         return out
     combis, des = cl.get_density_estimation_results()
+    refs = [RefDensity(np, c_, de_, sub) for c_, de_ in zip(combis, des)]     # independent density evaluation (current state)
 
     # ---- the scaling fixed at learning time --------------------------------------------------------------------
     g_lo, g_hi = [np.array(v, dtype=float) for v in cl.get_dataset_range()]
@@ -511,7 +575,7 @@ def run(case):
     if len(calc) != n_test:
         out.bad(sub + "/initial/classes-vs-testing-part-length", "%d calculated classes for %d testing samples" % (len(calc), n_test))
         return out
-    check_classes(np, out, sub + "/initial", combis, test_pos, calc, "testing part classified at learning time")
+    check_classes(np, out, sub + "/initial", refs, test_pos, calc, "testing part classified at learning time", lib=combis)
     if n_test:
         check_summary(np, out, sub + "/initial", cl.evaluate(), test_lab, calc, "evaluate() after learning")
     n_omit = cl.get_omitted_data().get_length() if not cl.get_omitted_data().is_empty() else 0
@@ -536,8 +600,59 @@ def run(case):
                 return False
         return True
     cl_calc = [calc.copy()]
+    evaluated = n_test > 0          # the library classified the built-in testing part at the end of learning
+    cont_pending = False            # a continuation happened after an evaluation; the next evaluation makes it "in between"
+    cont_after_first = False
+    first_idx = min([j for j, o_ in enumerate(case["ops"]) if o_["kind"] != "cont"], default=-1)
+
+    def big_grid():
+        return any(int(de_.grid.get_num_points()) >= 200 for de_ in des)
+    if evaluated and big_grid():
+        out.cls("grid>=200")
     for i, op in enumerate(case["ops"]):
         sig = sub
+        if op["kind"] == "cont":
+            # continue the dimension-wise refinement: the classifier changes, the learning-time scaling and the data do not
+            tag = "op %d continue_dimension_wise_refinement" % i
+            pts = max(int(c_.get_total_num_points()) for c_ in combis)
+            sizes_before = [r_.grid_sizes() for r_ in refs]
+            with contextlib.redirect_stdout(io.StringIO()):
+                cl.continue_dimension_wise_refinement(tolerance=0.0, max_evaluations=int(op["factor"] * pts) + 1, min_evaluations=1)
+            out.cls("continuation")
+            if [r_.grid_sizes() for r_ in refs] != sizes_before:
+                out.cls("continuation-changed-grids")
+            c2, d2 = cl.get_density_estimation_results()
+            if len(c2) != len(combis) or any(a is not b for a, b in zip(c2, combis)) or any(a is not b for a, b in zip(d2, des)):
+                combis, des = c2, d2
+                refs = [RefDensity(np, c_, de_, sub) for c_, de_ in zip(combis, des)]
+            a_lo, a_hi = cl.get_dataset_range()
+            if not (np.array_equal(np.asarray(a_lo), g_lo) and np.array_equal(np.asarray(a_hi), g_hi)
+                    and np.array_equal(np.asarray(cl.get_scale_factor()), g_sf)):
+                out.bad(sig + "/scaling/changed-by-continuation", "%s: range/scale factor changed" % tag)
+            calc_now = np.asarray(cl.get_calculated_classes_testset())
+            T = cl.get_testing_data()
+            nT = T.get_length() if not T.is_empty() else 0
+            if nT != n_test or (nT and not (np.all(np.abs(np.asarray(T[0], dtype=float).reshape(-1, d) - test_pos) <= TOL_POS)
+                                            and [int(v) for v in T[1]] == test_lab)):
+                out.bad(sig + "/continuation/testing-data-changed", tag)
+            elif len(calc_now) != len(cl_calc[0]):
+                out.bad(sig + "/continuation/number-of-calculated-classes", "%s: %d classes before, %d after"
+                        % (tag, len(cl_calc[0]), len(calc_now)))
+            elif n_test and len(calc_now) == n_test:
+                # the stored classes of the whole test set are re-computed with the continued classifier: they must be the
+                # arg-max classes of the CURRENT densities
+                check_classes(np, out, sig + "/continuation", refs, test_pos, calc_now, tag + " (re-classified test set)", lib=combis)
+                check_summary(np, out, sig + "/continuation/evaluate", cl.evaluate(), test_lab, calc_now, tag + " evaluate()")
+            elif not np.array_equal(calc_now, cl_calc[0]):
+                out.bad(sig + "/continuation/classes-changed-without-testing-data", tag)
+            cl_calc[0] = calc_now.copy()
+            if evaluated:
+                cont_pending = True
+            if first is not None:
+                cont_after_first = True
+            if out.violations:
+                return out
+            continue
         if op.get("obs"):
             n_obs += len(op["obs"])
             out.cls("observer-before-evaluation")
@@ -671,7 +786,7 @@ def run(case):
             if problem:
                 out.bad("%s/call/%s" % (sig, problem[0]), "%s: %s" % (tag, problem[1]))
                 return out
-            check_classes(np, out, sig + "/call", combis, S[idx], rc, tag)
+            check_classes(np, out, sig + "/call", refs, S[idx], rc, tag, lib=combis)
             if len(new_classes):
                 out.bad(sig + "/call/classes-appended-to-testset", "%s: __call__ appended %d classes to the test set bookkeeping"
                         % (tag, len(new_classes)))
@@ -687,7 +802,7 @@ def run(case):
                 out.bad(sig + "/test/number-of-new-classes", "%s: %d classes appended, %d labelled survivors (%d unlabelled "
                         "survivors, %d removed)" % (tag, len(new_classes), len(used), len(unl), len(S) - len(keep)))
                 return out
-            check_classes(np, out, sig + "/test", combis, S[used], new_classes, tag)
+            check_classes(np, out, sig + "/test", refs, S[used], new_classes, tag, lib=combis)
             if crashed_print:
                 pass                    # no summary was returned (known finding); everything else is still checked
             elif not isinstance(res, dict):
@@ -739,8 +854,15 @@ def run(case):
         if op["kind"] == "test":
             tested_before = True
         max_removed, max_kept = max(max_removed, n_removed), max(max_kept, n_kept)
-        if i == 0:
+        if i == first_idx:
             first = (kept_pos.copy(), list(kept_cls), P, zone)
+        evaluated = True
+        if big_grid():
+            out.cls("grid>=200")
+        if cont_pending:
+            out.cls("continuation-in-between")
+            if big_grid():
+                out.cls("continuation-in-between-grid>=200")
         prev = dict(prev_input=ds, prev_result=res if op["kind"] == "call" else None)
         cl_calc[0] = np.asarray(cl.get_calculated_classes_testset()).copy()
         if [s_ for s_, _ in out.violations if "/bookkeeping/" not in s_ and "/print-incorrect-points-IndexError/" not in s_]:
@@ -767,6 +889,8 @@ def run(case):
                 j += 1
         if j != len(kept_pos):
             out.bad(sub + "/repeat/survivors-changed", "evaluating the data of operation 0 again keeps a different set of samples")
+        elif cont_after_first:
+            check_classes(np, out, sub + "/repeat", refs, kept_pos, again, "operation 0's data again after a continuation", lib=combis)
         elif again != kept_cls:
             out.bad(sub + "/repeat/classes-changed", "classes of operation 0 %s, the same data evaluated again %s" % (kept_cls, again))
         out.cls("repeated-first-op")
@@ -805,6 +929,12 @@ def _strategy(mode):
                 case.update(lmin=lmin, lmax=draw(st.integers(lmin, 3)))
             else:
                 case.update(lmin=1, lmax=draw(st.sampled_from([2, 2, 3])), max_eval=draw(st.sampled_from([20, 40, 60])))
+                # a small share starts from a fine initial scheme: component grids with >= 200 points are evaluated by the
+                # point-by-point interpolation branch of the library (cheapest such configurations in d=2: ~0.2-0.3 s)
+                big = d == 2 and draw(st.sampled_from([False] * 8 + [True]))
+                if big:
+                    lmin, lmax = draw(st.sampled_from([(2, 6), (2, 6), (1, 7)]))
+                    case.update(lmin=lmin, lmax=lmax, max_eval=1, n=[min(v, 25) for v in case["n"]], big=True)
             nops = draw(st.sampled_from([1, 2, 2, 3, 3]))
             ops = []
 
@@ -821,6 +951,17 @@ def _strategy(mode):
                                 print_incorrect=draw(st.booleans()),
                                 raw=draw(st.sampled_from([False, False, False, True])),
                                 obs=observer_list([0, 0, 1, 1, 2] if i else [0, 0, 0, 1, 2])))
+            if mode == "dw" and (case.get("big") or draw(st.sampled_from([False, False, True]))):
+                # 1-2 continuations of the refinement, each between two evaluate/test operations
+                if len(ops) < 2:
+                    ops.append(dict(ops[0], kind="call", zone="inside", n=draw(st.integers(6, 14)), unl=0.5, raw=False, obs=[]))
+                if case.get("big"):
+                    ops[0].update(zone=draw(st.sampled_from(["inside", "partly"])), n=draw(st.integers(8, 14)))
+                for _ in range(draw(st.sampled_from([1, 1, 2]))):
+                    firsts = [j for j, o_ in enumerate(ops) if o_["kind"] != "cont"]
+                    pos = draw(st.integers(firsts[0] + 1, len(ops) - 1)) if len(ops) - 1 >= firsts[0] + 1 else len(ops) - 1
+                    if ops[pos]["kind"] != "cont" and ops[pos - 1]["kind"] != "cont":
+                        ops.insert(pos, dict(kind="cont", factor=draw(st.sampled_from([1.02, 1.1, 1.3]))))
             case["ops"] = ops
             case["obs_end"] = observer_list([0, 0, 1])
             case["repeat"] = draw(st.booleans())
@@ -847,7 +988,21 @@ def _fixed(mode):
                                obs=[dict(target="learning", action="scale_factor", f=3.0, vec=True),
                                     dict(target="prev_input", action="inplace", f=2.0, vec=False)])],
                      obs_end=[dict(target="learning", action="scale_range", f=2.0, vec=False)])
-        return [base, other]
+        cases = [base, other]
+        if mode == "dw":
+            # fine initial scheme (every component grid >= 189 points, the library's point-by-point interpolation branch),
+            # evaluations before, between and after two continuations of the refinement
+            E = dict(print_removed=False, print_output=False, print_incorrect=False, raw=False)
+            cases.append(dict(base, rng=4242, k=2, n=[25, 25], layout="blobs", affine="unit", orig_unl=0, lmin=2, lmax=6, max_eval=1,
+                              big=True, repeat=True,
+                              ops=[dict(E, kind="test", zone="partly", n=14, unl=0.25),
+                                   dict(kind="cont", factor=1.02),
+                                   dict(E, kind="call", zone="inside", n=14, unl=1.0),
+                                   dict(kind="cont", factor=1.1),
+                                   dict(E, kind="test", zone="inside", n=12, unl=0.0,
+                                        obs=[dict(target="testing", action="revert", f=2.0, vec=False)])]))
+            cases.append(dict(base, rng=99, ops=[base["ops"][0], dict(kind="cont", factor=1.3), base["ops"][1]]))
+        return cases
     return f
 
 
@@ -918,6 +1073,30 @@ def selftest():
     assert not o.violations, o.violations
     check_classes(np, o, "t", combis[::-1], Tst[0], calc, "selftest")
     assert o.violations, "reversed classifier list accepted"
+    # 8b. reference hat evaluation, closed form: 2-D combination (2,1)+(1,2)-(1,1) with hand-made surpluses
+    class _CG:
+        def __init__(self, lv, c):
+            self.levelvector, self.coefficient = lv, c
+
+    class _Combi:
+        scheme = [_CG((2, 1), 1), _CG((1, 2), 1), _CG((1, 1), -1)]
+
+    class _DE:
+        def get_result(self):
+            return {(2, 1): [1.0, 2.0, 3.0], (1, 2): [4.0, 5.0, 6.0], (1, 1): [7.0]}
+    ref = RefDensity(np, _Combi(), _DE(), "std")
+    # at (0.25, 0.5): grid (2,1) -> 1 ; grid (1,2) -> hats in y at .25,.5,.75 -> 5 * hat_x(0.25)=0.5 -> 2.5 ; grid (1,1) -> 7*0.5
+    # at (0.375, 0.375): (2,1): (0.5*1+0.5*2)*0.75 = 1.125 ; (1,2): 0.75*(0.5*4+0.5*5) = 3.375 ; (1,1): 7*0.75*0.75 = 3.9375
+    got = ref(np.array([[0.25, 0.5], [0.375, 0.375], [0.0, 0.3]]))[:, 0]
+    assert np.allclose(got, [1 + 2.5 - 3.5, 1.125 + 3.375 - 3.9375, 0.0], atol=1e-14), got
+    o = Outcome()
+    check_classes(np, o, "t/x", [ref, ref], np.array([[0.375, 0.375]]), [0], "selftest", lib=[ref, lambda P: ref(P) * (1 + 1e-6)])
+    assert [s for s, _ in o.violations] == ["t/density/combi-call-differs-from-reference-hats"], o.violations
+    # ... and on the real classifier the library's combi(points) reproduces the reference
+    refs = [RefDensity(np, c_, d_, "std") for c_, d_ in zip(*cl.get_density_estimation_results())]
+    o = Outcome()
+    check_classes(np, o, "t/x", refs, Tst[0], calc, "selftest", lib=combis)
+    assert not o.violations, o.violations
     # 9. observer operations: harmless on a sound DataSet; with a DataSet whose non-overriding scale_factor updates the
     #    (shared) factor array in place the classifier's learning-time scaling moves and the oracle must notice
     orig_sf = deml.DataSet.scale_factor
